@@ -189,11 +189,14 @@ class OPA(BaseModelSingleSet):
         # -> C0_sqrt_inv (mode x feature1)
         target = 0.5 * xr.dot(C0_sqrt_inv, M_summed, dims="feature1")
         # -> target (mode x feature2)
+        # NOTE: the second factor is the TRANSPOSE of the inverse square root
+        # (C0_sqrt_inv @ M_summed @ C0_sqrt_inv.T): contract over its feature index
         target = xr.dot(
-            target, C0_sqrt_inv.rename({"mode": "feature2"}), dims="feature2"
+            target,
+            C0_sqrt_inv.rename({"mode": "dummy", "feature1": "feature2"}),
+            dims="feature2",
         )
-        # -> target (mode x feature1)
-        target = target.rename({"feature1": "dummy"})
+        # -> target (mode x dummy)
         target = target.rename({"mode": "feature1"})
         # -> target (feature1 x dummy)
 
@@ -235,8 +238,11 @@ class OPA(BaseModelSingleSet):
         #     dask="allowed",
         # )
         # Compute the filter patterns
-        V = C0_sqrt_inv.rename({"mode": "mode1"}).dot(
-            U.rename({"mode": "mode2"}), dims="feature1"
+        # (C0_sqrt_inv.T @ U: contract over the mode index of the inverse square root)
+        V = xr.dot(
+            C0_sqrt_inv.rename({"mode": "temp", "feature1": "mode1"}),
+            U.rename({"feature1": "temp", "mode": "mode2"}),
+            dims="temp",
         )
         # -> V (mode1 x mode2)
 
